@@ -513,7 +513,7 @@ func pendingKeys(ob MatObs) []int64 {
 	}
 	var r []int64
 	for _, k := range ob.Index {
-		if !has[k] || val[k] == 0 {
+		if (!has[k] || val[k] == 0) && k >= 0 && k < int64(ob.Rows*ob.Cols) {
 			r = append(r, k)
 		}
 	}
@@ -543,7 +543,7 @@ func aimFrom(r *Rng, ob MatObs) (int64, bool) {
 	p := pk[r.Intn(len(pk))]
 	lo := int64(0)
 	for _, k := range ob.Index {
-		if k < p {
+		if k < p && k+1 > lo {
 			lo = k + 1
 		}
 	}
@@ -757,7 +757,7 @@ func genMatCase(r *Rng, tn string, withBad bool, cw *CaseWriter) (MCase, mstats)
 						inIdx[key] = true
 					}
 					for i, key := range ob.Keys {
-						if ob.Vals[i] != 0 {
+						if ob.Vals[i] != 0 && key >= 0 && key < int64(rows*cols) {
 							stored = append(stored, key)
 						}
 					}
